@@ -1370,6 +1370,10 @@ def do_load(w, op, p):
             if q.get("filter") is not None:
                 kwargs["modules"] = [model.get_submodule(x) for x in q["filter"]]
             quantize(model, **kwargs)
+            if rec["ser"] == "direct":
+                # assigning the source model's own tensors would make the two models one (torch's definition of
+                # assign=True): the in-memory dict is copied first, as a caller who wants two models does
+                sd = {k: (v.detach().clone() if isinstance(v, torch.Tensor) else copy.deepcopy(v)) for k, v in sd.items()}
             model.load_state_dict(sd, assign=True)
         elif target == "requantize":
             requantize(model, sd)
@@ -1381,6 +1385,15 @@ def do_load(w, op, p):
                 if q.get("filter") is not None:
                     kwargs["modules"] = [model.get_submodule(x) for x in q["filter"]]
                 quantize(model, **kwargs)
+                if op.get("warm") is not None:
+                    # the freshly quantized target is tried out once (eval mode, no autograd) before the checkpoint
+                    # is loaded into it
+                    try:
+                        with torch.no_grad():
+                            model(archs.gen_payload(tuple(op["warm"].get("lead", [2])) + tuple(rec["in_shape"]), DTYPES[rec["dtype"]], op["warm"]["seed"], "noise", 1.0))
+                        w.probe("target_warmed_up_before_load")
+                    except Exception:
+                        pass
             model.load_state_dict(sd, assign=assign)
     except (InjectedFault, InjectedInterrupt):
         raise
@@ -1568,9 +1581,11 @@ def check_grads(w, d, recs, p):
     if frozen:
         if mod.weight.grad is not None:
             w.violate("C11", "nograd", "train", dict(base, which="frozen_weight"), f"{rec.name}: frozen weight received a gradient", p)
-    else:
+    elif mod.weight.requires_grad:
         cmp("weight", mod.weight.grad, sum(x[1] for x in refs), sum(x[1] for x in mags))
-    if mod.bias is not None:
+    else:
+        base["weight_trainable"] = False
+    if mod.bias is not None and mod.bias.requires_grad:
         cmp("bias", mod.bias.grad, sum(x[2] for x in refs), sum(x[2] for x in mags))
     for sn in ("input_scale", "output_scale"):
         sc = getattr(mod, sn)
@@ -1765,3 +1780,23 @@ def do_refill_forward(w, d, op, p):
         w.violate("C13", "repeat", "refill_forward", {"wq": q.get("weights"), "aq": q.get("activations"), "how": "batch_object_refilled_in_place"}, "a batch tensor refilled in place evaluates differently from a fresh tensor holding the same values", p)
     memo_check(w, d, key2, out2, p, "refill_forward")
     return "ok"
+
+
+def do_set_trainable(w, d, op, p):
+    """Bias-only (or weight-only) fine-tuning: the caller switches requires_grad of the float parameters of the
+    un-frozen quantized modules. Gradients of what stays trainable must be unaffected (C11)."""
+    from optimum.quanto.tensor import QTensor
+
+    if not d.quantized:
+        return "skipped"
+    n = 0
+    for name, m in qmodules(d.model):
+        if isinstance(m.weight, QTensor) or m.weight is None:
+            continue
+        m.weight.requires_grad_(bool(op.get("weights", True)))
+        if getattr(m, "bias", None) is not None:
+            m.bias.requires_grad_(bool(op.get("biases", True)))
+        n += 1
+    if n:
+        w.probe("requires_grad_switched:" + ("w" if op.get("weights", True) else "-") + ("b" if op.get("biases", True) else "-"))
+    return "ok" if n else "skipped"
